@@ -124,6 +124,9 @@ class HumanMessageSerializer:
                     # UUID-ish
                     elif re.match(r"\A\w+-\w+-.*", var_val):
                         var_val = datatypes.UUID(var_val)
+                    # repr() of a non-finite float, not a literal as far as literal_eval() is concerned
+                    elif re.match(r"\A[-+]?(inf|nan)\Z", var_val):
+                        var_val = float(var_val)
                     else:
                         var_val = ast.literal_eval(var_val)
 
